@@ -167,8 +167,9 @@ class Check:
         for m in re.finditer(r"TRANSLATOR-FAIL (\S+)", out):
             name = os.path.basename(m.group(1))[:-3]
             if self.pid in users.get(name, [self.pid]):
+                self.tie_lost = True
                 self.notes.append(f"regenerated tie unavailable: {m.group(1)} failed closed on the current sources; relying on the correspondence "
-                                  f"(the previously generated Gen file stays in place)")
+                                  f"with 3x the stream sizes (the previously generated Gen file stays in place)")
         return out
 
     def build_failed(self, relpath):
@@ -335,6 +336,8 @@ class Check:
     def run_stream(self, name, fn, count, only=None):
         """fn(chk, i, rng) runs case i of the stream.  Harness/implementation exceptions that the case
         does not handle itself are failures of the correspondence."""
+        if getattr(self, "tie_lost", False) and self.tier == "quick":
+            count *= 3   # the regenerated tie is gone: search the correspondence three times as deep
         idxs = range(count) if only is None else [only]
         for i in idxs:
             self.cur = (name, i)
